@@ -415,6 +415,45 @@ func runC03(r *Run) {
 			}
 		})
 	}
+
+	// ---------- R8: the sequence the ante handler advanced is never moved backwards ----------
+	r.Rule("R8", "OWN/FLOW.nonce-not-rewound: the ante handler advances the sender's sequence once per Ethereum message (R3); any other consensus-scope write of an account nonce outside x/evm/statedb — StateDB.SetNonce from keeper code — is either a temporary reset that is followed on every path by another SetNonce, or its value depends on the nonce found before (GetNonce), so that it cannot fall behind what the ante handler set (a batch [create n, call n+1] otherwise ends at n+1 and the call can be executed again)")
+	nSet := 0
+	for _, fn := range scopesOf(r).S.HaqqFuncs() {
+		pk := fnPkgPath(fn)
+		if strings.HasSuffix(pk, "/x/evm/statedb") || isTestSupport(P, fn) {
+			continue
+		}
+		var sets []ssa.CallInstruction
+		eachCall(fn, func(ci CallInfo) {
+			if ci.Name == "SetNonce" && (ci.Recv == "StateDB" || ci.Invoke) {
+				sets = append(sets, ci.Instr)
+			}
+		})
+		for i, c := range sets {
+			nSet++
+			isOther := func(in ssa.Instruction) bool {
+				for _, o := range sets {
+					if o != c && ssa.Instruction(o) == in {
+						return true
+					}
+				}
+				return false
+			}
+			// last nonce write on some path?
+			w := PathQuery{Fn: fn, Start: c, Block: isOther, Target: func(in ssa.Instruction) bool { _, ok := in.(*ssa.Return); return ok }}.Search()
+			if w == nil {
+				r.OK("R8", fmt.Sprintf("%s#SetNonce-%d", fnID(fn), i+1), P.Pos(instrPos(c)), "temporary reset: another SetNonce follows on every path")
+				continue
+			}
+			args := c.Common().Args
+			val := args[len(args)-1]
+			dep := backSlice(val).HasCall(func(g CallInfo) bool { return g.Name == "GetNonce" || g.Name == "GetSequence" })
+			r.Check(dep, "R8", fmt.Sprintf("%s#SetNonce-%d", fnID(fn), i+1), P.Pos(instrPos(c)), "final nonce takes the nonce found before into account",
+				"this is the last nonce write on some path and its value derives only from the message (msg.Nonce()+1), not from the nonce the ante handler left: when a transaction carries several Ethereum messages of one sender the sequence is moved backwards and the later messages can be delivered and executed again")
+		}
+	}
+	r.Floor("R8", "StateDB.SetNonce call sites in keeper code", nSet, 2)
 }
 
 func stripCall(v ssa.Value) ssa.Value {
